@@ -6,13 +6,15 @@ MCKindOf == <<"s", "p", "s", "s", "p">>
 L(k, h) == [a |-> "listen", k |-> k, h |-> h]
 C(h)    == [a |-> "close",  k |-> 0, h |-> h]
 A(h)    == [a |-> "accept", k |-> 0, h |-> h]
+F(k)    == [a |-> "free",   k |-> k, h |-> 0]
 
 \* C13: two threads, one address: listen+close racing with listen+close
 ScrDeadlock == { <<  <<L(1,1), C(1)>>, <<L(1,2), C(2)>>, <<>>  >> }
 \* C12 stream: a connection accepted while nobody receives, then the last close
 ScrStuck == { << <<L(1,1), C(1)>>, <<A(1), A(1)>>, <<>> >> }
 \* C12 packet: reads on a closed handle while another handle stays open
-ScrClosedRead == { << <<L(2,1), L(2,2), C(1), A(1)>>, <<A(2)>>, <<C(2)>> >> }
+ScrClosedRead == { << <<L(2,1), L(2,2), C(1), A(1)>>, <<A(2)>>, <<C(2)>> >>,
+                   << <<L(1,1), L(1,2), C(1), A(1)>>, <<A(2)>>, <<C(2)>> >> }
 \* mixed families: 3 threads
 ScrMix3 == { << <<L(1,1), A(1), C(1)>>, <<L(1,2), C(2), L(1,3)>>, <<A(2), C(3)>> >>,
              << <<L(2,1), A(1), C(1)>>, <<L(2,2), C(2), L(2,3)>>, <<A(2), C(3)>> >>,
@@ -25,6 +27,10 @@ ScrRace == { << <<L(1,1), L(1,2), C(1)>>, <<A(1)>>, <<A(2)>> >>,
              << <<L(1,1), L(1,2), A(2)>>, <<A(1), A(1)>>, <<C(1), C(2)>> >> }
 \* listens that must fail (foreign socket holds the address) among ordinary traffic: the failing call returns and
 \* the manager stays usable
+\* a listen fails because a foreign socket holds the address; the foreign socket goes away; the next listen on the
+\* address succeeds and its close must release the socket (no reference left behind by the failed attempt)
+ScrBindRetry == { << <<L(4,1), F(4), L(4,2), C(2)>>, <<>>, <<>> >>,
+                  << <<L(5,1), F(5), L(5,2), A(2)>>, <<C(2)>>, <<>> >> }
 ScrBindFail == { << <<L(4,1), L(1,2), C(2)>>, <<L(1,3), C(3)>>, <<>> >>,
                  << <<L(5,1), L(2,2), C(2)>>, <<L(4,3)>>, <<A(2)>> >> }
 \* more scripts for the thorough tier
@@ -33,6 +39,6 @@ ScrMore == { << <<L(1,1), C(1), L(1,2)>>, <<L(1,3), A(3), C(3)>>, <<A(1), C(2)>>
              << <<L(1,1), L(1,2), C(2)>>, <<A(1), A(2), C(1)>>, <<A(1)>> >>,
              << <<L(2,1), L(2,2), C(2)>>, <<A(1), A(2), C(1)>>, <<A(1)>> >>,
              << <<L(1,1), L(3,2)>>, <<C(1), C(2)>>, <<L(1,3), C(3)>> >> }
-ScrAll == ScrDeadlock \cup ScrStuck \cup ScrClosedRead \cup ScrMix3 \cup ScrRace \cup ScrBindFail
+ScrAll == ScrDeadlock \cup ScrStuck \cup ScrClosedRead \cup ScrMix3 \cup ScrRace \cup ScrBindFail \cup ScrBindRetry
 ScrThorough == ScrAll \cup ScrMore
 ===============================================================================
